@@ -10,7 +10,7 @@
    history satisfies it (C13_invariant). *)
 From DV Require Import Lib.Base Gen.Tables Registry.RegTypes Registry.Registry Spec.RegistrySpec
   Limits.Limits Spec.LimitsSpec
-  Proofs.LimitsBase Proofs.LimitsReg Proofs.LimitsInv Proofs.LimitsMain Proofs.LimitsRefuse Proofs.LimitsFree.
+  Proofs.LimitsBase Proofs.LimitsReg Proofs.LimitsInv Proofs.LimitsMain Proofs.LimitsRefuse Proofs.LimitsFree Proofs.LimitsReload.
 Local Open Scope N_scope.
 
 (* ------------------------------------------------------------------------------------------
@@ -23,18 +23,19 @@ Theorem C13_limits_never_exceeded : limits_never_exceeded.
 Proof. exact limits_never_exceeded_proved. Qed.
 Print Assumptions C13_limits_never_exceeded.
 
-(* the same under the only hypothesis the proof needs: the unique name must fit *)
-Theorem C13_within_limits : forall L h, 1 <= max_names_per_connection L -> within_limits L (fst (lrun L linit h)).
+(* the same under the only hypotheses the proof needs ([usable]): the unique name must fit, and at least one
+   unregistered connection must be allowed (with 0 the first accept() trips the daemon's own assertion) *)
+Theorem C13_within_limits : forall L h, usable L -> within_limits L (fst (lrun L linit h)).
 Proof. exact within_limits_reachable. Qed.
 Print Assumptions C13_within_limits.
 
 (* the counters the daemon keeps (n_completed, n_incomplete, the per-uid table, n_match_rules,
    the length of services_owned) are the true counts *)
-Theorem C13_counters_exact : forall L h, 1 <= max_names_per_connection L -> counters_exact (fst (lrun L linit h)).
+Theorem C13_counters_exact : forall L h, usable L -> counters_exact (fst (lrun L linit h)).
 Proof. exact counters_exact_reachable. Qed.
 Print Assumptions C13_counters_exact.
 
-Theorem C13_invariant : forall L h, 1 <= max_names_per_connection L -> linv L (fst (lrun L linit h)).
+Theorem C13_invariant : forall L h, usable L -> linv L (fst (lrun L linit h)).
 Proof. exact reachable_linv. Qed.
 Print Assumptions C13_invariant.
 
@@ -109,8 +110,9 @@ Print Assumptions C13_unauthenticated_limit_literal_refuted.
 
 (* ------------------------------------------------------------------------------------------
    "requests below the limit are unaffected": in any state, an event that neither
-   configuration refuses (and whose message neither finds too long) has the same effect and
-   the same output under both - so the same as under a configuration that never refuses. *)
+   configuration refuses (nor aborts on) has the same output under both and the same effect,
+   up to the two values a state caches from the configuration ([uncached]: the listening
+   flag and the loaders' maxima) - so the same as under a configuration that never refuses. *)
 Theorem C13_below_limit_unaffected : limits_act_only_by_refusing.
 Proof. exact limits_act_only_by_refusing_proved. Qed.
 Print Assumptions C13_below_limit_unaffected.
@@ -195,10 +197,164 @@ Proof. exact oversize_only_sender. Qed.
 Print Assumptions C13_oversize_only_sender.
 
 Theorem C13_fitting_message_harmless : forall L s c hdr n,
-  declared_size hdr = Some n -> n <= effective_max L -> connected s c = true ->
+  linv L s -> declared_size hdr = Some n -> n <= effective_max L -> connected s c = true ->
   lstep L s (Message c hdr) = (s, []).
 Proof. exact fitting_message_harmless. Qed.
 Print Assumptions C13_fitting_message_harmless.
+
+(* ------------------------------------------------------------------------------------------
+   The configuration is reloaded in mid-history (SIGHUP / ReloadConfig: bus_context_reload_config
+   overwrites context->limits and revisits nothing).  [crun]: histories of events and reloads.
+
+   Literal property, "at every moment ... within the configured limits": refuted - a lowered
+   limit leaves the counts where they are (finding C13-D3). *)
+Definition C13_reload_full_statement : Prop := limits_never_exceeded_across_reloads.
+
+Definition Lr (completed incomplete msg : N) : limits := mkLimits completed 4 incomplete 4 4 4 msg.
+Example Lr_ok : forall a b c, 1 <= a -> 1 <= b -> all_at_least_one (Lr a b c).
+Proof. intros a b c Ha Hb. unfold all_at_least_one, Lr. simpl. repeat split; try assumption; discriminate. Qed.
+
+Definition two_registered : list citem :=
+  [Ev (Connect 0); Ev (Auth 0); Ev (Hello 0); Ev (Connect 0); Ev (Auth 1); Ev (Hello 1)].
+
+Theorem C13_reload_full_statement_refuted : ~ C13_reload_full_statement.
+Proof.
+  intros H. assert (A : all_at_least_one (Lr 2 4 1000)) by (apply Lr_ok; discriminate).
+  assert (O : all_items_ok (two_registered ++ [Reload (Lr 1 4 1000)])).
+  { simpl. split; [apply Lr_ok; discriminate | exact I]. }
+  pose proof (wl_completed _ _ (H _ _ A O)) as W. vm_compute in W. apply W. reflexivity.
+Qed.
+Print Assumptions C13_reload_full_statement_refuted.
+
+(* What holds instead, for every history with reloads and every next event: no count grows past the
+   limit in force - a count above its limit can only fall (so the excess drains and never returns). *)
+Theorem C13_never_grows_across_reloads : forall L0 h e, all_at_least_one L0 -> all_items_ok h ->
+  let cs := fst (crun (L0, linit) h) in never_grows (fst cs) (snd cs) (fst (lstep (fst cs) (snd cs) e)).
+Proof. exact never_grows_across_reloads. Qed.
+Print Assumptions C13_never_grows_across_reloads.
+
+Theorem C13_reload_invariant : forall L0 h, all_at_least_one L0 -> all_items_ok h ->
+  let cs := fst (crun (L0, linit) h) in
+  all_at_least_one (fst cs) /\ (exists B, ginv B (snd cs)) /\ s_watches (snd cs) = watches_for (fst cs) (s_nincomplete (snd cs)).
+Proof. exact creachable_ginv. Qed.
+Print Assumptions C13_reload_invariant.
+
+(* the same for any state with the structural invariant, under any limits *)
+Theorem C13_step_never_grows : forall B L s e, 1 <= max_names_per_connection L -> ginv B s -> never_grows L s (fst (lstep L s e)).
+Proof. exact step_never_grows. Qed.
+Print Assumptions C13_step_never_grows.
+
+(* The listening flag (context->watches_enabled).  A reload re-evaluates it (bus_context_check_all_watches at the end of
+   bus_context_reload_config, /repo 577eae6; before that fix it kept the verdict of the old limits: finding C13-D4, fixed).
+   So across reloads too the assertion of bus_connections_setup_connection, _dbus_assert (n_incomplete <=
+   max_incomplete_connections), never fails, and a connection attempt waits exactly when the limit in force is reached. *)
+Theorem C13_never_aborts_without_reload : forall L h e, usable L -> aborts (snd (lstep L (fst (lrun L linit h)) e)) = false.
+Proof. exact never_aborts_without_reload. Qed.
+Print Assumptions C13_never_aborts_without_reload.
+
+Theorem C13_never_aborts_across_reloads : never_aborts_across_reloads.
+Proof. exact never_aborts_across_reloads_proved. Qed.
+Print Assumptions C13_never_aborts_across_reloads.
+
+Theorem C13_step_never_aborts_across_reloads : forall L0 h e, all_at_least_one L0 -> all_items_ok h ->
+  let cs := fst (crun (L0, linit) h) in aborts (snd (lstep (fst cs) (snd cs) e)) = false.
+Proof. exact step_never_aborts_across_reloads. Qed.
+Print Assumptions C13_step_never_aborts_across_reloads.
+
+Theorem C13_abort_only_in_accept : forall L s e, aborts (snd (lstep L s e)) = true ->
+  exists uid, e = Connect uid /\ s_watches s = true /\ max_incomplete_connections L < s_nincomplete s + 1.
+Proof. exact abort_only_in_accept. Qed.
+Print Assumptions C13_abort_only_in_accept.
+
+Theorem C13_accept_follows_configuration : accept_follows_configuration.
+Proof. exact accept_follows_configuration_proved. Qed.
+Print Assumptions C13_accept_follows_configuration.
+
+(*  the mechanism: the answer to a connection attempt is the flag; the flag is recomputed from the limits in
+    force whenever the number of unregistered connections changes, and by every reload *)
+Theorem C13_accept_follows_flag : forall L s uid, refusal (snd (lstep L s (Connect uid))) = negb (s_watches s).
+Proof. exact accept_follows_flag. Qed.
+Print Assumptions C13_accept_follows_flag.
+
+Theorem C13_flag_refreshed_when_count_changes : forall L s e,
+  s_nincomplete (fst (lstep L s e)) <> s_nincomplete s ->
+  s_watches (fst (lstep L s e)) = watches_for L (s_nincomplete (fst (lstep L s e))).
+Proof. exact flag_refreshed_when_count_changes. Qed.
+Print Assumptions C13_flag_refreshed_when_count_changes.
+
+(*  the two situations of the former finding: limit lowered below the count while accepting -> the next client
+    waits (no abort); limit raised while paused -> the next client is accepted at once *)
+Definition lowered_history : list citem :=
+  [Ev (Connect 0); Ev (Auth 0); Ev (Hello 0); Ev (Connect 0); Ev (Connect 0); Reload (Lr 4 1 1000); Ev (Connect 0); Ev (Disconnect 1); Ev (Connect 0); Ev (Disconnect 2); Ev (Connect 0)].
+Example ex_reload_lowered :
+  map (map snd) (snd (crun (Lr 4 4 1000, linit) lowered_history)) =
+  [[OAccepted]; [OAuthOk]; [OReg (MHelloReply 0); OReg (MAcquired (KU 0))]; [OAccepted]; [OAccepted]; []; [ONotAccepted]; []; [ONotAccepted]; []; [OAccepted]].
+Proof. vm_compute. reflexivity. Qed.
+
+Definition raised_history : list citem :=
+  [Ev (Connect 0); Ev (Auth 0); Ev (Hello 0); Ev (Connect 0); Ev (Connect 0); Reload (Lr 4 4 1000); Ev (Connect 0)].
+Example ex_reload_raised :
+  map (map snd) (snd (crun (Lr 4 1 1000, linit) raised_history)) =
+  [[OAccepted]; [OAuthOk]; [OReg (MHelloReply 0); OReg (MAcquired (KU 0))]; [OAccepted]; [ONotAccepted]; []; [OAccepted]].
+Proof. vm_compute. reflexivity. Qed.
+
+(* max_message_size reaches a connection's loader once, when it is accepted (finding C13-D5): after the
+   limit was lowered an older connection may still send messages above it *)
+Definition size_history : list citem :=
+  [Ev (Connect 0); Ev (Auth 0); Ev (Hello 0); Ev (Connect 0); Ev (Auth 1); Ev (Hello 1); Reload (Lr 4 4 600)].
+Definition hdr800 : bytes := [108; 1; 0; 1; 16; 3; 0; 0; 1; 0; 0; 0; 0; 0; 0; 0].   (* 16 + 0 + 784 = 800 bytes *)
+Theorem C13_size_limit_follows_configuration_refuted : ~ size_limit_follows_configuration.
+Proof.
+  intros H. assert (A : all_at_least_one (Lr 4 4 1000)) by (apply Lr_ok; discriminate).
+  assert (O : all_items_ok size_history). { simpl. split; [apply Lr_ok; discriminate | exact I]. }
+  specialize (H _ _ 1 hdr800 800 A O). cbv zeta in H.
+  assert (C : connected (snd (fst (crun (Lr 4 4 1000, linit) size_history))) 1 = true) by (vm_compute; reflexivity).
+  assert (D : declared_size hdr800 = Some 800) by (vm_compute; reflexivity).
+  assert (E : effective_max (fst (fst (crun (Lr 4 4 1000, linit) size_history))) < 800) by (vm_compute; reflexivity).
+  specialize (H C D E). vm_compute in H. discriminate H.
+Qed.
+Print Assumptions C13_size_limit_follows_configuration_refuted.
+
+(*  what holds: the test is against the connection's own maximum, which it keeps as long as it is connected
+    and which was the configured (clamped) value when it was accepted *)
+Theorem C13_oversize_by_own_maximum : forall B L s c d hdr n,
+  ginv B s -> connected s c = true -> find_cd (s_cdata s) c = Some d -> declared_size hdr = Some n -> d_maxmsg d < n ->
+  let s' := fst (lstep L s (Message c hdr)) in
+  let o := snd (lstep L s (Message c hdr)) in
+  connected s' c = false /\
+  (forall x, x <> c -> connected s' x = connected s x /\ registered s' x = registered s x) /\
+  (forall x, In (x, OClosed) o <-> x = c).
+Proof. exact oversize_by_own_maximum. Qed.
+Print Assumptions C13_oversize_by_own_maximum.
+
+Theorem C13_fitting_by_own_maximum : forall L s c d hdr n,
+  connected s c = true -> find_cd (s_cdata s) c = Some d -> declared_size hdr = Some n -> n <= d_maxmsg d ->
+  lstep L s (Message c hdr) = (s, []).
+Proof. exact fitting_by_own_maximum. Qed.
+Print Assumptions C13_fitting_by_own_maximum.
+
+Theorem C13_maxmsg_fixed_at_accept : forall L s e c m,
+  maxmsg_of s c = Some m -> connected (fst (lstep L s e)) c = true -> ginv (own_or L s) s -> maxmsg_of (fst (lstep L s e)) c = Some m.
+Proof. exact maxmsg_fixed_at_accept. Qed.
+Print Assumptions C13_maxmsg_fixed_at_accept.
+
+Theorem C13_accepted_gets_configured_maximum : forall L s uid,
+  In (s_next s, OAccepted) (snd (lstep L s (Connect uid))) -> (forall d, In d (s_cdata s) -> d_id d <> s_next s) ->
+  maxmsg_of (fst (lstep L s (Connect uid))) (s_next s) = Some (loader_max L).
+Proof. exact accepted_gets_configured_maximum. Qed.
+Print Assumptions C13_accepted_gets_configured_maximum.
+
+(* reload examples: the excess after lowering max_completed_connections drains and is not refilled *)
+Example ex_reload_drain :
+  snd (crun (Lr 2 4 1000, linit)
+        (two_registered ++ [Reload (Lr 1 4 1000); Ev (Connect 0); Ev (Auth 2); Ev (Hello 2); Ev (Disconnect 1); Ev (Hello 2); Ev (Disconnect 0); Ev (Hello 2)])) =
+  [[(0, OAccepted)]; [(0, OAuthOk)]; [(0, OReg (MHelloReply 0)); (0, OReg (MAcquired (KU 0)))];
+   [(1, OAccepted)]; [(1, OAuthOk)]; [(1, OReg (MHelloReply 1)); (1, OReg (MAcquired (KU 1)))];
+   []; [(2, OAccepted)]; [(2, OAuthOk)]; [(2, OErr LLimitsExceeded)]; []; [(2, OErr LLimitsExceeded)]; [];
+   [(2, OReg (MHelloReply 2)); (2, OReg (MAcquired (KU 2)))]].
+Proof. vm_compute. reflexivity. Qed.
+
+
 
 (* ------------------------------------------------------------------------------------------
    non-vacuity *)
